@@ -510,11 +510,24 @@ func c18Closure(c *Ctx, decls map[*types.Func]*ast.FuncDecl) {
 			}
 			guardOK, why := onlyNilGuards(parents, call, rs)
 			// no continue/break/return before the call inside the loop body
+			// (the negative form of the nil guard — `if f.Message == nil { continue }` ahead of the call — skips nothing)
 			early := false
+			nilSkip := func(b ast.Node) bool {
+				for p := parents[b]; p != nil && p != ast.Node(rs); p = parents[p] {
+					if ifs, ok := p.(*ast.IfStmt); ok && nodeContains(ifs.Body, b.Pos()) {
+						be, ok := ast.Unparen(ifs.Cond).(*ast.BinaryExpr)
+						if ok && be.Op == token.EQL && isNilIdent(be.Y) && types.ExprString(be.X) == types.ExprString(arg) && len(ifs.Body.List) == 1 {
+							return true
+						}
+						return false
+					}
+				}
+				return false
+			}
 			ast.Inspect(rs.Body, func(m ast.Node) bool {
 				switch b := m.(type) {
 				case *ast.BranchStmt:
-					if b.Pos() < call.Pos() {
+					if b.Pos() < call.Pos() && !(b.Tok == token.CONTINUE && nilSkip(b)) {
 						early = true
 					}
 				case *ast.ReturnStmt:
@@ -651,6 +664,18 @@ func c18Closure(c *Ctx, decls map[*types.Func]*ast.FuncDecl) {
 			}
 			arg := ast.Unparen(call.Args[0])
 			okSrc := false
+			if id, ok := arg.(*ast.Ident); ok {
+				// the builder's own message (a *protogen.Message parameter handed down from processMessage): its own name
+				if v, ok := info.ObjectOf(id).(*types.Var); ok && typeIsNamed(v.Type(), "compiler/protogen", "Message") {
+					for _, f := range decl.Type.Params.List {
+						for _, nm := range f.Names {
+							if info.ObjectOf(nm) == types.Object(v) {
+								return true
+							}
+						}
+					}
+				}
+			}
 			if sel, ok := arg.(*ast.SelectorExpr); ok {
 				switch sel.Sel.Name {
 				case "Message", "Input", "Output", "valueMessage":
@@ -963,35 +988,71 @@ func c18PerService(c *Ctx) {
 	r.Check(calls["NewGenerator"] == 1 && calls["Render"] == 1 && calls["NewGeneratedFile"] == 1 && calls["ProcessService"] == 1 && !skip, "R18d",
 		"every service gets its own generator, one rendering and one file", c.P.Pos(rs.Pos()),
 		fmt.Sprintf("the per-service loop (with the local functions it calls) reaches %v (continue/break: %v): a service without a document, or several services in one", calls, skip))
-	// file name: Sprintf with service name and ext; ext depends on format
-	for fn, decl := range mainDecls {
-		if fn != c.P.Func(cmdOpenAPI, "writeServiceFile") {
-			continue
-		}
-		minfo := c.P.DeclPkg[fn].TypesInfo
+	// file name: a Sprintf of "%s.openapi.%s" with the service name and an extension local; in the function that holds it
+	// the extension local is "json" under a test of the JSON format (the function is found by this shape, not by name)
+	{
 		okName, okExt := false, false
-		ast.Inspect(decl.Body, func(n ast.Node) bool {
-			switch x := n.(type) {
-			case *ast.CallExpr:
-				if cal := Callee(minfo, x); cal != nil && cal.Name() == "Sprintf" && len(x.Args) == 3 {
-					if tv, ok := minfo.Types[x.Args[0]]; ok && tv.Value != nil && strings.Trim(tv.Value.ExactString(), `"`) == "%s.openapi.%s" &&
-						strings.Contains(types.ExprString(x.Args[1]), "service.Desc.Name()") && types.ExprString(x.Args[2]) == "ext" {
-						okName = true
-					}
-				}
-			case *ast.IfStmt:
-				if strings.Contains(types.ExprString(x.Cond), "FormatJSON") && len(x.Body.List) == 1 {
-					if as, ok := x.Body.List[0].(*ast.AssignStmt); ok && types.ExprString(as.Lhs[0]) == "ext" {
-						if tv, ok := minfo.Types[as.Rhs[0]]; ok && tv.Value != nil && tv.Value.ExactString() == `"json"` {
-							okExt = true
+		var where *ast.FuncDecl
+		for mfn, decl := range mainDecls {
+			if decl.Body == nil {
+				continue
+			}
+			fnDecl := decl
+			minfo := c.P.DeclPkg[mfn].TypesInfo
+			var extObj types.Object
+			ast.Inspect(fnDecl.Body, func(n ast.Node) bool {
+				if x, ok := n.(*ast.CallExpr); ok {
+					if cal := Callee(minfo, x); cal != nil && cal.Name() == "Sprintf" && len(x.Args) == 3 {
+						if tv, ok := minfo.Types[x.Args[0]]; ok && tv.Value != nil && strings.Trim(tv.Value.ExactString(), `"`) == "%s.openapi.%s" &&
+							strings.Contains(types.ExprString(x.Args[1]), ".Desc.Name()") {
+							if id, ok := ast.Unparen(x.Args[2]).(*ast.Ident); ok {
+								okName = true
+								where = fnDecl
+								extObj = minfo.ObjectOf(id)
+							}
 						}
 					}
 				}
+				return true
+			})
+			if extObj == nil {
+				continue
 			}
-			return true
-		})
-		r.Check(okName && okExt, "R18d", "file name is <Service>.openapi.<ext> with the extension of the format", c.P.Pos(decl.Pos()),
-			fmt.Sprintf("writeServiceFile: name from service and ext=%v, ext follows format=%v", okName, okExt))
+			ast.Inspect(fnDecl.Body, func(n ast.Node) bool {
+				var body []ast.Stmt
+				cond := ""
+				switch x := n.(type) {
+				case *ast.IfStmt:
+					body, cond = x.Body.List, types.ExprString(x.Cond)
+				case *ast.CaseClause:
+					body = x.Body
+					for _, e := range x.List {
+						cond += types.ExprString(e) + " "
+					}
+				default:
+					return true
+				}
+				if !strings.Contains(cond, "FormatJSON") {
+					return true
+				}
+				for _, st := range body {
+					if as, ok := st.(*ast.AssignStmt); ok && len(as.Lhs) == 1 && len(as.Rhs) == 1 {
+						if id, ok := as.Lhs[0].(*ast.Ident); ok && minfo.ObjectOf(id) == extObj {
+							if tv, ok := minfo.Types[as.Rhs[0]]; ok && tv.Value != nil && tv.Value.ExactString() == `"json"` {
+								okExt = true
+							}
+						}
+					}
+				}
+				return true
+			})
+		}
+		pos := ""
+		if where != nil {
+			pos = c.P.Pos(where.Pos())
+		}
+		r.Check(okName && okExt, "R18d", "file name is <Service>.openapi.<ext> with the extension of the format", pos,
+			fmt.Sprintf("output file name: built from the service name and an extension local=%v, the extension is \"json\" under the JSON format=%v", okName, okExt))
 	}
 	// operationId
 	if pm := c.P.Func(pkgOpenAPI, "Generator.processMethod"); pm != nil {
